@@ -126,7 +126,9 @@ def _body(c, stats: Stats, tier='quick'):
 
 def shard(stats: Stats, shard_i, nshards, seed, tier):
     n = {'quick': 2, 'thorough': 12}[tier]
-    common.run_given(stats, seed, n, batches(), lambda c, s: body(c, s, tier), shrink=False)
+    # the quick tier is bounded by its case count (2 batches per shard); a generous wall-clock budget keeps a loaded machine from
+    # silently halving the search (each batch needs several child processes)
+    common.run_given(stats, seed, n, batches(), lambda c, s: body(c, s, tier), shrink=False, budget_s=900.0 if tier == 'quick' else None)
 
 
 def run(tier, t0):
